@@ -8,6 +8,7 @@ use crate::{
     next::NextChunk,
     AtomicCounter, ConcurrentIter, Next,
 };
+use super::taken::Taken;
 use std::{
     cell::UnsafeCell,
     cmp::Ordering,
@@ -60,23 +61,16 @@ impl<const N: usize, T: Send + Sync> ConIterOfArray<N, T> {
         let len = end_idx - begin_idx;
 
         let ptr = array.as_mut_ptr().add(begin_idx);
-        let vec = Vec::from_raw_parts(ptr, len, 0);
-        vec.into_iter()
+        Taken::new(ptr, len)
     }
 
     unsafe fn split_off_right(&self, left_len: usize) -> Vec<T> {
         debug_assert!(left_len <= N);
 
         let man_array = &mut *self.array.get();
-        let mut array = ManuallyDrop::take(man_array);
-
-        let mut vec = Vec::from_raw_parts(array.as_mut_ptr(), N, 0);
-        let right_vec = vec.split_off(left_len);
-        // the left part is not owned by `vec`: its elements have already been yielded
-        std::mem::forget(vec);
-
-        *man_array = ManuallyDrop::new(array);
-        right_vec
+        let ptr = man_array.as_mut_ptr();
+        // moves the right part out; the left part has already been yielded and is left untouched
+        (left_len..N).map(|i| ptr.add(i).read()).collect()
     }
 }
 
